@@ -22,6 +22,7 @@ func sweepObjectives() []*objective {
 	out = append(out, atMin)
 	out = append(out, catalogue()...)
 	out = append(out, pathological()...)
+	out = append(out, wiggleNaN())
 	return out
 }
 
